@@ -342,6 +342,14 @@ def converted_call(f, args, kwargs, caller_fn_scope=None, options=None):
       # This should be handled in the same way as partials.
       target_entity = f.__class__.__call__
       effective_args = (f,) + args
+      # Note: __call__ may be declared as a static or class method, in which
+      # case the instance is not passed to it.
+      static_call = inspect.getattr_static(f.__class__, '__call__', None)
+      if isinstance(static_call, staticmethod):
+        effective_args = args
+      elif isinstance(static_call, classmethod):
+        target_entity = target_entity.__func__
+        effective_args = (f.__class__,) + args
 
     else:
       target_entity = f
